@@ -8,6 +8,7 @@ From Coq Require Import ZArith List Bool Lia Permutation.
 From MV Require Import Ast Eval Scalar Machine Model Policy.
 From MV.Proofs Require Import Arith Logic Prim View OpsLocal Guards Drops DrainIt Retain CapHistory Core FilterIt Grow Dedup Refine Clone Extend RetainSpec RetainAbs RetainSource.
 From MV Require Import EquivDefs Prims EquivRetain.
+Close Scope string_scope.
 Import ListNotations.
 Open Scope Z_scope.
 
